@@ -317,6 +317,14 @@ def run(chk: Check):
     chk.assumptions = ["theorem load_save is unconditional in what the folder held before (the series file is appended to only when its rows are a prefix of the current ones)",
                        "RLScheduler cannot be pickled at all (known finding), so 'both scheduler kinds' holds for round-robin only"]
     chk.proof_stage(PROP_FILE)
+    # the data-file names the code under test knows (read off its source, now) are the ones the model's directory has: load_ignores_foreign_file and
+    # save_keeps_foreign_files are statements about exactly these names
+    model_names = sorted(lean_run(["ckpt.names"])[0].split(" "))
+    code_names = leftovers.known_filenames()
+    chk.case(["names", code_names], True, {"op": "data-file names in the source", "names": code_names}); chk.count("file_names_compared_with_the_model")
+    if sorted(code_names) != model_names:
+        chk.disagree("the code under test names data files that BlackIt.Checkpoint.Dir.fileNames does not have (or the other way round)",
+                     {"in_code_only": sorted(set(code_names) - set(model_names)), "in_model_only": sorted(set(model_names) - set(code_names))})
     contract_backends(chk, rng, 20000 if chk.tier == "quick" else 200000)
     chk.count("contract_floats", 20000 if chk.tier == "quick" else 200000)
     # (ii)
